@@ -71,6 +71,29 @@ class NameSpaces:
             if ds and all(isinstance(v, ast.Dict) for v in ds):
                 vals = [val for v in ds for key, val in zip(v.keys, v.values) if key is not None and const_str(key) == const_str(e.slice)]  # type: ignore[union-attr]
                 return len(vals) == len(ds) and all(self.san_expr(v, depth + 1, seen) for v in vals)
+            # ... or the record is built by a helper of the module / class whose every return is such a dict literal (`self._body_param_info(name, ...)`):
+            # the entry is read from the literal, a parameter of the helper standing for the argument of the call
+            if ds and all(isinstance(v, ast.Call) for v in ds):
+                ok_all = True
+                for v in ds:
+                    nm = (dotted(v.func) or "").split(".")[-1]  # type: ignore[union-attr]
+                    h = self.fn.module.functions.get(nm) or (self.fn.cls.methods.get(nm) if self.fn.cls is not None else None)
+                    rets = [r for r in ast.walk(h.node) if isinstance(r, ast.Return) and r.value is not None] if h is not None else []
+                    if not rets or not all(isinstance(r.value, ast.Dict) for r in rets):
+                        return False
+                    hp = [a.arg for a in h.node.args.args if a.arg not in ("self", "cls")]  # type: ignore[union-attr]
+                    for r in rets:
+                        ent = [val for key, val in zip(r.value.keys, r.value.values) if key is not None and const_str(key) == const_str(e.slice)]  # type: ignore[union-attr]
+                        if len(ent) != 1:
+                            return False
+                        x = ent[0]
+                        if isinstance(x, ast.Name) and x.id in hp:
+                            i = hp.index(x.id)
+                            arg = v.args[i] if i < len(v.args) else next((k.value for k in v.keywords if k.arg == x.id), None)  # type: ignore[union-attr]
+                            ok_all = ok_all and arg is not None and self.san_expr(arg, depth + 1, seen)
+                        else:
+                            ok_all = ok_all and isinstance(x, ast.Constant) and isinstance(x.value, str) and x.value.isidentifier()
+                return ok_all
             return False
         if isinstance(e, ast.JoinedStr):
             parts = [v.value for v in e.values if isinstance(v, ast.FormattedValue)]
